@@ -106,6 +106,22 @@ def agg_cases():
                     q = f'SELECT b FROM #t GROUP BY b ORDER BY {key}' + (' DESC' if desc else '')
                     exp = [(t[0],) for t in exp_rows]
                 out.append((q, exp))
+    # DISTINCT on aggregate queries whose grouping has a key that is not selected: groups with equal visible rows collapse, then LIMIT
+    def dedup(seq):
+        seen, res_ = set(), []
+        for x in seq:
+            if x not in seen:
+                seen.add(x)
+                res_.append(x)
+        return res_
+    counts = [(len(groups[k]),) for k in groups]
+    out.append(('SELECT DISTINCT count(*) FROM #t GROUP BY b', dedup(counts)))
+    out.append(('SELECT DISTINCT count(*) FROM #t GROUP BY b LIMIT 1', dedup(counts)[:1]))
+    g2 = {}
+    for r in rows:
+        g2.setdefault((r[0], r[1]), []).append(r)
+    out.append(('SELECT DISTINCT a, count(*) FROM #t GROUP BY a, b', dedup([(k[0], len(v)) for k, v in g2.items()])))
+    out.append(('SELECT DISTINCT count(n) FROM #t GROUP BY a, b ORDER BY 1 DESC', sorted(dedup([(len(v),) for v in g2.values()]), reverse=True)))
     return out
 
 
